@@ -13,7 +13,7 @@
 EXTENDS Universes, TLC, Json
 
 \* ---- universe -------------------------------------------------------------
-R9Names == <<cA, <<97, 47, 98>>, <<97, 126, 98>>, <<126, 49>>, <<48>>, <<49>>, <<>>, <<97, 32, 98>>, <<47>>, <<126>>, <<126, 48>>, <<233>>, <<127>>, <<133, 97>>>>
+R9Names == <<cA, <<97, 47, 98>>, <<97, 126, 98>>, <<126, 49>>, <<48>>, <<49>>, <<>>, <<97, 32, 98>>, <<47>>, <<126>>, <<126, 48>>, <<233>>, <<127>>, <<133, 97>>, <<233, 1>>, <<128512, 233, 10, 97>>>>
 R9NamesT == R9Names \o << <<39>>, <<97, 39, 98>>, <<92>>, <<34>>, <<10>>, <<45, 49>>, <<91, 48, 93>> >>
 R9N == IF Thorough THEN R9NamesT ELSE R9Names
 R9Leaf == <<JInt(1), JStr(cA), JArr(<<JInt(1), JInt(2)>>), JObj(<<cA>>, <<JInt(1)>>)>>
@@ -67,11 +67,14 @@ Finish == /\ phase = "run" /\ Len(ops) >= 1
           /\ phase' = "done" /\ UNCHANGED <<di, doc, ops, paths>>
 
 \* quick tier: the first operation ranges over all paths, later ones over a seeded sample
+IsDeep == FALSE                             \* (deep documents are fed back through the Evaluator universe C01D instead)
 Sample(n) == \/ Len(ops) = 0
-             \/ Len(ops) = 1 /\ ((n * 7 + Seed) % (IF Thorough THEN 4 ELSE 3) = 0)
-             \/ Len(ops) = 2 /\ ((n * 5 + Seed) % 16 = 0)
-Next == \/ \E n \in 1..Len(paths) : Sample(n) /\ Reference(n)
-        \/ \E n \in 1..Len(paths) : Sample(n) /\ \E vi \in 1..Len(R9Vals) : (Len(ops) = 0 \/ vi = 1 + ((n + Seed) % 3)) /\ Write(n, vi)
+             \/ Len(ops) = 1 /\ ~IsDeep /\ ((n * 7 + Seed) % (IF Thorough THEN 4 ELSE 3) = 0)
+             \/ Len(ops) = 2 /\ ~IsDeep /\ ((n * 5 + Seed) % 16 = 0)
+\* on the deep document only every 12th path is used (and the deepest ones), one value per write
+DeepPick(n) == ~IsDeep \/ n % 12 = 0 \/ n > Len(paths) - 6
+Next == \/ \E n \in 1..Len(paths) : Sample(n) /\ DeepPick(n) /\ Reference(n)
+        \/ \E n \in 1..Len(paths) : Sample(n) /\ DeepPick(n) /\ \E vi \in 1..Len(R9Vals) : ((Len(ops) = 0 /\ ~IsDeep) \/ vi = 1 + ((n + Seed) % 3)) /\ Write(n, vi)
         \/ Finish
 Spec == Init /\ [][Next]_vars
 
